@@ -37,8 +37,12 @@ PSC = "pymarkdown.plugin_manager.plugin_scan_context.PluginScanContext"
 def r13a(ctx: Context) -> None:
     prog = ctx.prog
     rule = ctx.rule("R13a", "parser statics written at run time are re-initialised per document", 8)
-    transform = prog.method(TM, "__transform")
     block_pass = prog.method(TM, "__parse_blocks_pass")
+    # the function of the tokenizer that runs the passes (the one that calls the block pass directly)
+    runners = sorted({s.caller for s in prog.callers.get(block_pass.qualname, []) if s.caller.cls is not None and s.caller.cls.qualname == TM}, key=lambda f: f.qualname)
+    if len(runners) != 1:
+        raise AnalysisError(f"the block pass is called from {len(runners)} functions of the tokenizer")
+    transform = runners[0]
     # initialisers called unconditionally (top level of the try body) before the block pass
     uncond: List[FuncInfo] = []
     body = transform.node.body
@@ -382,6 +386,9 @@ def r13c(ctx: Context) -> None:
     for name in ("__scan_file", "__process_file_fix_tokens", "__process_file_fix_lines"):
         func = prog.method(FSH, name)
         calls = [s for s in prog.sites_in(func) if starting in s.targets]
+        if not calls:  # through a private helper of the scan helper
+            helpers = [t for s in prog.sites_in(func) for t in s.targets if t.cls == func.cls]
+            calls = [s for helper in helpers for s in prog.sites_in(helper) if starting in s.targets]
         key = f"{func.short}: starts the file"
         if calls:
             rule.ok(key, f"{len(calls)} starting_new_file call(s)")
